@@ -20,10 +20,12 @@ import attr
 import attrs
 from attr import exceptions as aexc
 
+import c04_ir
 import common
 
 ID = "C04"
-TABLES = ["attrsKw", "defineKw", "frozenPartialKw"]
+TABLES = ["attrsKw", "defineKw", "frozenPartialKw", "hashCacheField", "c17HashKeyAffix"]
+TRUSTED = ["harness/c04_ir.py: the strict parser from the generated __hash__ source to the IR of Model/C04IR.lean (T3); anything it does not recognise becomes an `unknown` node"]
 PARALLEL = True
 BUDGET_S = {"quick": 38, "thorough": 400}
 EXHAUSTIVE = {"quick": False, "thorough": False}
@@ -40,7 +42,14 @@ RULE = (
     "with <=3 fields, scripted ==-classes / hash codes / key function on {0,1,2}, 1-2 instances and histories of <=9 "
     "operations (hash / copy / deepcopy / pickle protocols 2-5 / evolve / field write), 30% of them scripted as hash, derive, "
     "write to the derived instance, hash both; non-trivial = a hash operation on a class with an attrs-generated hash, or a "
-    "table row that is not the default row (attr.s, nothing passed, no base); distinct = distinct JSON case. Histories also "
+    "table row that is not the default row (attr.s, nothing passed, no base); distinct = distinct JSON case. T3: for every "
+    "generated chain of the instance streams and every varied table row with a field (every 10th in the quick tier, about "
+    "400 cases, all in the thorough tier; non-exception chains with <= 3 fields) one `script` case: the chain is defined "
+    "afresh, the real source text of the last class's own generated __hash__ -- and of its twin's, defined without "
+    "cache_hash -- is parsed strictly into the IR of Model/C04IR.lean (with the binding of every key helper in the "
+    "method's globals, the salt literal compared with hash of the class's unique id, hash/object builtins, the "
+    "_cache_wrapper default) and compared with the model generator's script; the observed scripts are executed in Lean on "
+    "every pair of value vectors over the case's scripted domain. Histories also "
     "contain attr.assoc (modelled: copy.copy, object.__setattr__ per change, a carried-over cached hash cleared); a change block "
     "runs hash, assoc/evolve with every non-empty set of changed fields, hash of the result and of the original, for every "
     "per-field eq x hash setting of 1 and 2 fields (incl. eq=False with hash=True), mostly on dict cache_hash classes. "
@@ -56,6 +65,10 @@ RULE = (
     "of every hand-written chain (dict classes with the generated state methods, mixed slotted/dict chains)"
 )
 ASSUMPTIONS = [
+    "T3: the text parsed is the text that runs (the parser recompiles it and compares the code object); the IR's meaning "
+    "(`execScript`) gives `hash((…))`, attribute reads through the slot-or-dict rule and `object.__setattr__` / assignment "
+    "of the cache the same meaning as the model's hash call; whether the cached value is wrapped in _cache_wrapper is "
+    "compared syntactically only (its effect, pickling as None, is exercised by the T2 histories)",
     "CPython facts modelled as small trusted functions and diff-tested here: `__hash__ = None` is inserted for a body that "
     "defines __eq__ only; a slot descriptor on the MRO shadows the instance __dict__; copy.copy shares, deepcopy/pickle "
     "rebuild the __dict__ of dict classes and use __getstate__/__setstate__ for slotted ones",
@@ -143,6 +156,7 @@ def make_key():
 _MOD = "c04mod"
 _CACHE: dict = {}
 _BUILDS = [0]
+_LAST_KEY = [None]
 
 
 def _kw(c):
@@ -217,6 +231,7 @@ def _build_chain(root, chain, register):
         # slot, which gets quadratic unless the generated sources of earlier chains are dropped now and then
         common.purge_linecache()
     key = make_key()
+    _LAST_KEY[0] = key
     ns = {"__name__": _MOD, "attr": attr, "attrs": attrs, "KEY": key}
     mod = None
     if register:
@@ -369,7 +384,46 @@ def _hash_op(C, T, names, x, alt):
             "nKey": n_key, "nVal": n_val}
 
 
+def is_script(case):
+    return case.get("kind") == "script"
+
+
+def make_script_case(chain, rng):
+    """T3: the chain alone; the observation is the parsed source of the last class's generated __hash__ (and of the
+    twin's, defined without cache_hash)"""
+    eqc, hcode, key_map = _rand_domain(rng)
+    case = mk_case([dict(c, fields=[dict(f) for f in c["fields"]]) for c in chain], eqc=eqc, hcode=hcode, key_map=key_map)
+    case["kind"] = "script"
+    return case
+
+
+def _script_ok(chain, root):
+    """chains a script case may be made of (mirror of Script.wf, generator-side only)"""
+    return (not root and sum(len(c["fields"]) for c in chain) <= 3 and not _k3_shape(chain)
+            and not any(_is_legacy_or_mixed(c) for c in chain)
+            and all(c["api"] == "plain" or (not c["ownInit"] and c["init"] in ("unset", "pyNone", "t")) for c in chain))
+
+
+def _parse_leaf(chain):
+    """define the chain afresh and parse its last class's own generated __hash__ at once (before any other
+    definition can evict the source from linecache); None when there is no such method"""
+    kinds, classes, _, _ = _build_chain("object", chain, register=False)
+    if classes is None or kinds[-1] != "generated" or chain[-1]["api"] == "plain":
+        return None
+    keyed = [i for i, f in enumerate(f for c in chain if c["api"] != "plain" for f in c["fields"]) if f["eq"] == "key"]
+    return c04_ir.parse_hash(classes[-1], _LAST_KEY[0], keyed)
+
+
+def observe_script(case):
+    chain = case["chain"]
+    script = _parse_leaf(chain)
+    twin = _parse_leaf([dict(c, cacheHash="unset") for c in chain]) if script is not None else None
+    return {"script": script, "twin": twin}
+
+
 def observe(case):
+    if is_script(case):
+        return observe_script(case)
     global EQC, HCODE, KEYMAP, ACTIVE_TAGS
     kinds, classes, twin, mod, tags = build(case)
     if classes is None or not (case["insts"] or case["ops"]):
@@ -733,7 +787,7 @@ def _rand_history(rng, chain, nf, n_insts, max_ops, copy_ok=None):
     return ops
 
 
-def _inst_cases(rng, chain, count=1, max_ops=8, pairs=None, root=None):
+def _inst_cases(rng, chain, count=1, max_ops=8, pairs=None, root=None, script=False):
     """cases over one chain (built once): `count` random histories, or one pair block; `root` names an
     exception class the root class derives from"""
     nf = sum(len(c["fields"]) for c in chain if c["api"] != "plain")
@@ -747,6 +801,8 @@ def _inst_cases(rng, chain, count=1, max_ops=8, pairs=None, root=None):
     if classes is None:
         yield case  # a definition error: still a row of the table
         return
+    if script and _script_ok(chain, root):
+        yield make_script_case(chain, rng)
     if pairs is not None:
         x, alts = pairs
         case["insts"] = [list(x)]
@@ -884,6 +940,13 @@ def _change_block(rng, k_max):
 
 def gen_cases(tier, rng):
     quick = tier == "quick"
+    n_chain = [0]
+
+    def want_script():
+        """T3: every chain in the thorough tier, every 10th in the quick tier"""
+        n_chain[0] += 1
+        return not quick or n_chain[0] % 10 == 0
+
     # ---- class-level decision table
     rows = list(_core_rows())
     rng.shuffle(rows)
@@ -896,6 +959,8 @@ def gen_cases(tier, rng):
         c = _table_case(row, rng, vary=True)
         if c is not None:
             yield c
+            if (not c["excBase"] and c["chain"][-1]["fields"] and want_script() and _script_ok(c["chain"], None)):
+                yield make_script_case(c["chain"], rng)
     # ---- templates with random histories
     for chain in _templates():
         for gs in ("unset", "t"):
@@ -903,7 +968,7 @@ def gen_cases(tier, rng):
             if gs == "t":
                 # the generated __getstate__/__setstate__ also on dict classes
                 ch = [dict(k, getstateSetstate="t") if k["api"] != "plain" else k for k in ch]
-            yield from _inst_cases(rng, _dress_names(rng, ch, p=0.25), count=2 if quick else 20)
+            yield from _inst_cases(rng, _dress_names(rng, ch, p=0.25), count=2 if quick else 20, script=want_script())
     # ---- instance pairs
     if quick:
         blocks = list(_pair_block(rng, 1))
@@ -912,7 +977,7 @@ def gen_cases(tier, rng):
     else:
         blocks = _pair_block(rng, 2)
     for chain, pairs in blocks:
-        yield from _inst_cases(rng, _dress_names(rng, chain), pairs=pairs)
+        yield from _inst_cases(rng, _dress_names(rng, chain), pairs=pairs, script=want_script())
     # ---- change sets of assoc / evolve after a hash
     for chain, x, ops in itertools.chain.from_iterable(_change_block(rng, 2) for _ in range(2 if quick else 8)):
         if _k3_shape(chain):
@@ -921,10 +986,12 @@ def gen_cases(tier, rng):
         case = mk_case(_dress_names(rng, chain, p=0.2), eqc=eqc, hcode=hcode, key_map=key_map, insts=[x], ops=ops)
         if build(case)[1] is not None:
             yield case
+            if want_script() and _script_ok(case["chain"], None):
+                yield make_script_case(case["chain"], rng)
     # ---- random chains and histories
     for _ in range(3400 if quick else 60000):
         root = rng.choice(ROOTS) if rng.random() < 0.12 else None
-        yield from _inst_cases(rng, _rand_chain(rng), count=4 if quick else 8, root=root)
+        yield from _inst_cases(rng, _rand_chain(rng), count=4 if quick else 8, root=root, script=want_script())
 
 
 # ----------------------------------------------------------------------------------------------- reporting
@@ -933,12 +1000,29 @@ def _default_row(c):
 
 
 def nontrivial(case, model):
+    if is_script(case):
+        return bool(model) and model.get("script") is not None
     if any(isinstance(op, dict) and "hash" in op for op in case["ops"]):
         return bool(model) and "generated" in model.get("classes", [])
     return len(case["chain"]) > 1 or not _default_row(case["chain"][-1])
 
 
+def _script_dist(case, obs):
+    sc = obs.get("script") if isinstance(obs, dict) else None
+    body = (sc or {}).get("body", [])
+    ops = [o for st in body if isinstance(st, dict) for v in st.values() if isinstance(v, dict)
+           for o in (v.get("e") or {}).get("operands", [])]
+    return {"stream": "script", "script": "none" if sc is None else ("cached" if isinstance(sc.get("params"), dict) and "cached" in sc["params"] else "plain"),
+            "script_operands": len(ops),
+            "script_unknown": sum(1 for st in body if isinstance(st, dict) and "unknown" in st)
+            + sum(1 for o in ops if isinstance(o, dict) and "unknown" in o),
+            "script_keyed": sum(1 for o in ops if isinstance(o, dict) and "keyed" in o),
+            "leaf_api": case["chain"][-1]["api"], "depth": len(case["chain"])}
+
+
 def dist(case, obs):
+    if is_script(case):
+        return _script_dist(case, obs)
     leaf = case["chain"][-1]
     kinds = obs.get("classes", []) if isinstance(obs, dict) else []
     res = obs.get("results", []) if isinstance(obs, dict) else []
@@ -992,6 +1076,18 @@ def shrink(case):
 
 
 def neighbours(case, rng):
+    if is_script(case):
+        # the text differs from the model's: look for a history of that chain on which the behaviour differs
+        base = {k: v for k, v in case.items() if k != "kind"}
+        chain = case["chain"]
+        nf = sum(len(c["fields"]) for c in chain if c["api"] != "plain")
+        for _ in range(60):
+            c2 = dict(base)
+            c2["insts"] = [[rng.randrange(3) for _ in range(nf)] for _ in range(rng.choice([1, 2]))]
+            c2["ops"] = _rand_history(rng, chain, nf, len(c2["insts"]), 8, _uniform(chain, False))
+            c2["eqc"], c2["hcode"], c2["keyMap"] = _rand_domain(rng)
+            yield c2
+        return
     chain = case["chain"]
     for k, c in enumerate(chain):
         if c["api"] == "plain":
@@ -1035,5 +1131,14 @@ LEVEL_TEXT = (
     "inherited / attrs-generated or the decorator's error) and instance histories over scripted values with call counting "
     "(about 4 x 10^5 cases per thorough run). Observed, not proved: CPython's implicit __hash__ = None, slot-vs-dict lookup, "
     "copy/pickle machinery, tuple hashing (hashes are only compared for equality), and that the generated source is what "
-    "the model says (no translation validation of the __hash__ source in this check)."
+    "the model says beyond T3 below."
+    " T3 (translation validation of the generated __hash__ text): `C04_script_correct` proves, for arbitrary field "
+    "lists, frozen or not, caching or not, every layout and every instance state, that executing the script the model "
+    "generator emits (`genHashOf`: salt, the participating fields in order, key helpers, and the cache read / fill / "
+    "return statements) is exactly the model's hash call; the `script` cases check per sampled class that the parsed real "
+    "source (both the class's and its uncached twin's) is syntactically that script, and execute the observed scripts in "
+    "Lean on all value-vector pairs of the case's domain against the same local specification. So on every class whose "
+    "script agrees, the theorems above are about the text that really runs, not only about sampled calls; a rewrite of "
+    "the emitted text that keeps the behaviour is reported as a broken tie (`no-failing-input-found`), a script hashing "
+    "something else as a violation with the value vectors."
 )
